@@ -6,7 +6,7 @@
    allocates is decided by the allocation probe of the correspondence run. *)
 From Memchr Require Import Spec SpecProofs Params
   Mem.Wrappers Mem.WrappersProofs Mem.Iter Mem.IterProofs
-  Sub.ShiftOr Sub.ShiftOrProofs Sub.Prefilter Sub.TwoWay Sub.TwoWayCert Sub.TwoWayTier2
+  Sub.ShiftOr Sub.ShiftOrProofs Sub.Prefilter Sub.TwoWay Sub.TwoWayCert Sub.TwoWayTier2 Sub.TwoWayTier2Rev
   Sub.Searcher Sub.SearcherProofs Sub.FindIter Sub.FindIterProofs.
 
 Example C17_saturating_multiply : pre_mul_saturating = true.
@@ -87,6 +87,13 @@ Proof.
     eapply Forall_impl; [|exact Ht]. intros e. destruct e; tauto.
 Qed.
 
+Lemma rev_cert_always : forall x, tw_reach_rev x = true -> tw_cert_rev_of x = true.
+Proof. intros x H. apply tw_cert_rev_all. unfold tw_reach_rev in H. apply Nat.leb_le in H. lia. Qed.
+
+Theorem C17_memmem_rfind : forall ar a h x, bytes_ok x -> bytes_ok h -> no_allocs (snd (memmem_rfind ar a h x)).
+Proof. intros ar a h x Hx Hh. apply C17_memmem_rfind_partial; [exact Hx|exact Hh|apply rev_cert_always]. Qed.
+
+Print Assumptions C17_memmem_rfind.
 Print Assumptions C17_memchr.
 Print Assumptions C17_memchr_iter.
 Print Assumptions C17_finder_new_and_find.
